@@ -273,12 +273,35 @@ def ctx_cache(key, build):
     return store[key]
 
 
+def le_objective(objname, term, ss):
+    """z3 formula for  term <= objective(ss)  without if-then-else min/max over ss (those make the solver crawl when there are hundreds of
+    candidate partitions): max(ss) >= t  <=>  some s >= t;  -min(ss) >= t  <=>  some s <= -t;  max-min >= t  <=>  some gap >= t"""
+    ss = list(ss)
+    if objname == 'max':
+        return z3.Or([term <= s for s in ss])
+    if objname == 'min':
+        return z3.Or([term <= -s for s in ss])
+    if objname == 'diff':
+        if len(ss) == 1:
+            return term <= 0
+        return z3.Or([term <= b - c for b in ss for c in ss if b is not c])
+    return term <= objective_z(objname, ss)
+
+
 def optimal_among_partitions(objname, result_sums, xs, k):
-    """result is optimal: for every partition P of the items into <= k bins, obj(result) <= obj(P)"""
-    mine = objective_z(objname, result_sums)
+    """result is optimal: for every partition P of the items into <= k bins, obj(result) <= obj(P).
+    The result's own objective stays a small if-then-else term; the partitions' objectives are expanded into disjunctions."""
     n = len(xs)
-    terms = ctx_cache(('opt', objname, k, n), lambda: [objective_z(objname, block_sums(a, xs, k)) for a in rgs(n, k)])
-    return z3.And([mine <= t for t in terms])
+    mine = objective_z(objname, list(result_sums))
+    if os.environ.get('VERIF_ITE_ORACLE') == '1':
+        terms = ctx_cache(('opt', objname, k, n), lambda: [objective_z(objname, block_sums(a, xs, k)) for a in rgs(n, k)])
+        return z3.And([mine <= t for t in terms])
+    # the formula is built once per exploration context over a placeholder D and instantiated per path by substitution (done inside z3)
+    def build():
+        D = z3.Int('D!oracle!%s!%d!%d' % (objname, k, n))
+        return D, z3.And([le_objective(objname, D, block_sums(a, xs, k)) for a in rgs(n, k)])
+    D, F = ctx_cache(('optF', objname, k, n), build)
+    return z3.substitute(F, (D, mine))
 
 
 def multiset_eq(a, b):
